@@ -5,6 +5,7 @@
 package eventlogger
 
 //@ func (Status).getError(ctxErr, threshold, thresholdSinks) (err)
+//@   assigns nothing
 //@   ensures C02/err-iff-below-threshold: (err == nil) <==> (len(s.complete) >= threshold && len(s.completeSinks) >= thresholdSinks)
 //@   ensures C02/err-wraps-ctx: err != nil && ctxErr != nil ==> wraps(err, ctxErr)
 
@@ -227,3 +228,66 @@ package eventlogger
 //@   loop 1 invariant len(nodes) == len(def.NodeIDs) && (forall j int :: 0 <= j && j <= rangeindex ==> (def.NodeIDs[j] in b.nodes) && nodes[j] == b.nodes[def.NodeIDs[j]].node)
 //@   ghost call (*graph).doValidate#1 with root = root, k = 0
 //@   loop 2 invariant forall u *nodeUsage :: u.referenceCount >= old(u.referenceCount)
+
+// ---- event fan-out (C01, C02, C03) ----
+// Trace events used below (see DESIGN.md): "call:eventlogger.Node.Process" a0=node value a2=ctx a3=event in,
+// a5=event out, a6/a7=error (tag,val); "send" a0=channel; "recv-done" a0=ctx; "wgadd" a0=wg a1=n;
+// "spawn:(*graph).doProcess" a0=g a1=ctx a2=linked node a3=event a4=channel a5=wg; "wgdone" a0=wg.
+
+//@ iface Node.Process(ctx, e) (out, err)
+//@   requires C12/callback-free: cbfree()
+//@   assigns ctxdone
+
+//@ pure statusShape(s Status) bool = (len(s.Warnings) == 1 && len(s.complete) == 0 && len(s.completeSinks) == 0) || (len(s.Warnings) == 0 && len(s.complete) == 1 && (len(s.completeSinks) == 0 || (len(s.completeSinks) == 1 && s.completeSinks[0] == s.complete[0])))
+
+//@ func (*graph).doProcess(ctx, node, e, statusChan, wg)
+//@   requires node != nil && node.node != nil
+//@   requires C12/callback-free: cbfree()
+//@   assigns ev, ctxdone, elem:error, elem:NodeID
+//@   sends statusChan: statusShape(msg) && (len(msg.Warnings) == 1 ==> tagof(msg.Warnings[0]) == ev_a(old(ev_n), 6) && valof(msg.Warnings[0]) == ev_a(old(ev_n), 7) && ev_a(old(ev_n), 6) != 0) && (len(msg.complete) == 1 ==> ev_a(old(ev_n), 6) == 0 && msg.complete[0] == node.nodeID && ((len(msg.completeSinks) == 1) <==> (nodeType(node.node) == NodeTypeSink)))
+//@   ensures C01/node-invoked-once-with-given-event: calls("Node.Process") == old(calls("Node.Process")) + 1 && ev_kind(old(ev_n)) == "call:eventlogger.Node.Process" && ev_a(old(ev_n), 0) == valof(node.node) && ev_a(old(ev_n), 2) == valof(ctx) && ev_a(old(ev_n), 3) == e
+//@   ensures C01+C02/traversal-ends-here: (ev_a(old(ev_n), 6) != 0 || ev_a(old(ev_n), 5) == 0 || len(node.next) == 0) ==> ev_n == old(ev_n) + 3 && ((ev_kind(old(ev_n) + 1) == "send" && ev_a(old(ev_n) + 1, 0) == statusChan) || (ev_kind(old(ev_n) + 1) == "recv-done" && ev_a(old(ev_n) + 1, 0) == valof(ctx) && ctxdone(ctx)))
+//@   ensures C01/children-get-the-returned-event: ev_a(old(ev_n), 6) == 0 && ev_a(old(ev_n), 5) != 0 && len(node.next) > 0 ==> ev_n == old(ev_n) + 2 + 2 * len(node.next) && (forall k int :: 0 <= k && k < len(node.next) ==> ev_kind(old(ev_n) + 1 + 2*k) == "wgadd" && ev_a(old(ev_n) + 1 + 2*k, 0) == wg && ev_a(old(ev_n) + 1 + 2*k, 1) == 1 && ev_kind(old(ev_n) + 2 + 2*k) == "spawn:(*graph).doProcess" && ev_a(old(ev_n) + 2 + 2*k, 0) == g && ev_a(old(ev_n) + 2 + 2*k, 1) == valof(ctx) && ev_a(old(ev_n) + 2 + 2*k, 2) == node.next[k] && ev_a(old(ev_n) + 2 + 2*k, 3) == ev_a(old(ev_n), 5) && ev_a(old(ev_n) + 2 + 2*k, 4) == statusChan && ev_a(old(ev_n) + 2 + 2*k, 5) == wg)
+//@   ensures C03/no-close-wait-or-bare-send: forall i int :: old(ev_n) <= i && i < ev_n ==> ev_kind(i) != "close" && ev_kind(i) != "wgwait" && ev_kind(i) != "send-bare"
+//@   ensures C03/done-signalled-last-exactly-once: ev_kind(ev_n - 1) == "wgdone" && ev_a(ev_n - 1, 0) == wg && (forall i int :: old(ev_n) <= i && i < ev_n - 1 ==> ev_kind(i) != "wgdone")
+//@   loop 1 invariant len(node.next) > 0 && ev_a(old(ev_n), 6) == 0 && ev_a(old(ev_n), 5) != 0 && e == ev_a(old(ev_n), 5) && ev_n == old(ev_n) + 1 + 2 * (rangeindex + 1) && calls("Node.Process") == old(calls("Node.Process")) + 1 && ev_kind(old(ev_n)) == "call:eventlogger.Node.Process" && ev_a(old(ev_n), 0) == valof(node.node) && ev_a(old(ev_n), 2) == valof(ctx) && ev_a(old(ev_n), 3) == old(e)
+//@   loop 1 invariant forall k int :: 0 <= k && k <= rangeindex ==> ev_kind(old(ev_n) + 1 + 2*k) == "wgadd" && ev_a(old(ev_n) + 1 + 2*k, 0) == wg && ev_a(old(ev_n) + 1 + 2*k, 1) == 1 && ev_kind(old(ev_n) + 2 + 2*k) == "spawn:(*graph).doProcess" && ev_a(old(ev_n) + 2 + 2*k, 0) == g && ev_a(old(ev_n) + 2 + 2*k, 1) == valof(ctx) && ev_a(old(ev_n) + 2 + 2*k, 2) == node.next[k] && ev_a(old(ev_n) + 2 + 2*k, 3) == ev_a(old(ev_n), 5) && ev_a(old(ev_n) + 2 + 2*k, 4) == statusChan && ev_a(old(ev_n) + 2 + 2*k, 5) == wg
+//@   loop 1 invariant forall i int :: old(ev_n) < i && i < ev_n ==> ev_kind(i) == "wgadd" || ev_kind(i) == "spawn:(*graph).doProcess"
+
+//@ pure wfRoots(g *graph) bool = forall k PipelineID :: (k in view(g.roots.m)) ==> view(g.roots.m)[k] != nil && view(g.roots.m)[k].rootNode != nil && view(g.roots.m)[k].rootNode.node != nil
+
+//@ func (*graph).process$1$1(_, pipeline) (cont)
+//@   requires g != nil && pipeline != nil && pipeline.rootNode != nil && pipeline.rootNode.node != nil
+//@   requires C12/callback-free: cbfree()
+//@   assigns ev, ctxdone, elem:error, elem:NodeID
+//@   ensures C01/stops-only-when-cancelled: !cont ==> ctxdone(ctx) && calls("Node.Process") == old(calls("Node.Process"))
+//@   ensures C01/starts-root-with-the-sent-event: cont ==> calls("Node.Process") == old(calls("Node.Process")) + 1 && ev_kind(old(ev_n)) == "wgadd" && ev_a(old(ev_n), 0) == wg && ev_a(old(ev_n), 1) == 1 && ev_kind(old(ev_n) + 1) == "call:eventlogger.Node.Process" && ev_a(old(ev_n) + 1, 0) == valof(pipeline.rootNode.node) && ev_a(old(ev_n) + 1, 2) == valof(ctx) && ev_a(old(ev_n) + 1, 3) == e
+//@   ensures C03/no-close-wait-or-bare-send: forall i int :: old(ev_n) <= i && i < ev_n ==> ev_kind(i) != "close" && ev_kind(i) != "wgwait" && ev_kind(i) != "send-bare"
+
+//@ func (*graph).process$1()
+//@   requires g != nil && wfRoots(g)
+//@   requires C12/callback-free: cbfree()
+//@   assigns ev, ctxdone, elem:error, elem:NodeID
+//@   ensures C03/waits-for-all-then-closes-once: ev_n >= old(ev_n) + 2 && ev_kind(ev_n - 2) == "wgwait" && ev_a(ev_n - 2, 0) == wg && ev_kind(ev_n - 1) == "close" && ev_a(ev_n - 1, 0) == statusChan && (forall i int :: old(ev_n) <= i && i < ev_n - 2 ==> ev_kind(i) != "close" && ev_kind(i) != "wgwait" && ev_kind(i) != "send-bare")
+//@   rangeloop 1 invariant forall i int :: old(ev_n) <= i && i < ev_n ==> ev_kind(i) != "close" && ev_kind(i) != "wgwait" && ev_kind(i) != "send-bare"
+
+//@ func (*graph).process(ctx, e) (status, err)
+//@   requires g != nil
+//@   requires C12/callback-free: cbfree()
+//@   assigns ev, ctxdone, elem:error, elem:NodeID, box:chan Status, box:*graph, box:context.Context, box:*Event, box:sync.WaitGroup
+//@   sends statusChan: statusShape(msg)
+//@   ensures C03/exactly-one-goroutine-started: ev_kind(old(ev_n)) == "spawn:(*graph).process$1" && ev_a(old(ev_n), 0) == g && ev_a(old(ev_n), 1) == valof(ctx) && ev_a(old(ev_n), 3) == e
+//@   ensures C03/collector-only-receives: forall i int :: old(ev_n) < i && i < ev_n ==> ev_kind(i) == "recv" || ev_kind(i) == "recv-done"
+//@   ensures C02/entries-never-invented: len(status.Warnings) + len(status.complete) == received(ev_a(old(ev_n), 4)) && len(status.completeSinks) <= len(status.complete)
+//@   ensures C02/error-iff-below-thresholds: (err == nil) <==> (len(status.complete) >= g.successThreshold && len(status.completeSinks) >= g.successThresholdSinks)
+//@   ensures C02/error-wraps-context-error: err != nil && ctxdone(ctx) ==> wraps(err, ctxErr(ctx))
+//@   loop 1 invariant ev_kind(old(ev_n)) == "spawn:(*graph).process$1" && ev_a(old(ev_n), 0) == g && ev_a(old(ev_n), 1) == valof(ctx) && ev_a(old(ev_n), 3) == e && ev_a(old(ev_n), 4) == statusChan && ev_n > old(ev_n)
+//@   loop 1 invariant forall i int :: old(ev_n) < i && i < ev_n ==> ev_kind(i) == "recv" || ev_kind(i) == "recv-done"
+//@   loop 1 invariant len(status.Warnings) + len(status.complete) == received(statusChan) && len(status.completeSinks) <= len(status.complete)
+
+//@ func (*Broker).Send(ctx, t, payload) (status, err)
+//@   requires b != nil && noLocksHeld() && wfGraphs(b)
+//@   ensures C01/unknown-type-delivers-nothing: !old(t in b.graphs) ==> err != nil && ev_n == old(ev_n)
+//@   ensures C01/event-carries-type-and-payload: old(t in b.graphs) ==> ev_kind(old(ev_n)) == "spawn:(*graph).process$1" && ev_a(old(ev_n), 0) == old(b.graphs[t]) && ev_a(old(ev_n), 1) == valof(ctx) && (forall E *Event :: E == ev_a(old(ev_n), 3) ==> fresh(E) && E.Type == t && E.Payload == payload && E.Formatted != nil && len(E.Formatted) == 0)
+//@   ensures unlocked: noLocksHeld()
+//@   ensures C04/single-critical-section: acquisitions(b.lock) <= old(acquisitions(b.lock)) + 1
